@@ -167,28 +167,34 @@ pub fn observe_scope(w: &mut World, pfx: &[String], uris: &[String]) -> J {
             out.push(json!({"live": false}));
             continue;
         }
-        let mut inscope: Vec<(String, String)> =
-            x.namespaces_in_scope(h).take(WALK_BOUND).map(|(p, n)| (x.prefix_str(p).to_string(), x.namespace_str(n).to_string())).collect();
+        let mut inscope: Vec<(String, String)> = guard(
+            || x.namespaces_in_scope(h).take(WALK_BOUND).map(|(p, n)| (x.prefix_str(p).to_string(), x.namespace_str(n).to_string())).collect(),
+            vec![("?panic".to_string(), "?panic".to_string())],
+        );
         inscope.sort();
         let nfp: Vec<J> = pids
             .iter()
-            .map(|p| match x.namespace_for_prefix(h, *p) {
-                Some(n) => json!([true, x.namespace_str(n)]),
+            .map(|p| match guard(|| x.namespace_for_prefix(h, *p).map(|n| x.namespace_str(n).to_string()), Some("?panic".to_string())) {
+                Some(n) => json!([true, n]),
                 None => json!([false, ""]),
             })
             .collect();
         let pfn: Vec<J> = nids
             .iter()
-            .map(|n| match x.prefix_for_namespace(h, *n) {
-                Some(p) => json!([true, x.prefix_str(p)]),
+            .map(|n| match guard(|| x.prefix_for_namespace(h, *n).map(|p| x.prefix_str(p).to_string()), Some("?panic".to_string())) {
+                Some(p) => json!([true, p]),
                 None => json!([false, ""]),
             })
             .collect();
         let ipd: Vec<bool> = pids.iter().map(|p| x.is_prefix_defined(h, *p)).collect();
-        let mut inh: Vec<(String, String)> =
-            x.inherited_prefixes(h).iter().map(|(p, n)| (x.prefix_str(*p).to_string(), x.namespace_str(*n).to_string())).collect();
+        // (a panic of an accessor is data: it shows as a value no scope can have)
+        let mut inh: Vec<(String, String)> = guard(
+            || x.inherited_prefixes(h).iter().map(|(p, n)| (x.prefix_str(*p).to_string(), x.namespace_str(*n).to_string())).collect(),
+            vec![("?panic".to_string(), "?panic".to_string())],
+        );
         inh.sort();
-        let mut unres: Vec<String> = x.unresolved_namespaces(h).iter().map(|n| x.namespace_str(*n).to_string()).collect();
+        let mut unres: Vec<String> =
+            guard(|| x.unresolved_namespaces(h).iter().map(|n| x.namespace_str(*n).to_string()).collect(), vec!["?panic".to_string()]);
         unres.sort();
         unres.dedup();
         // qualified names: full_name, name_ref, node_name_ref (element and attribute nodes)
@@ -202,7 +208,7 @@ pub fn observe_scope(w: &mut World, pfx: &[String], uris: &[String]) -> J {
                     },
                     Err(()) => json!(["err", "", ""]),
                 };
-                nref = match x.name_ref(name, h) {
+                nref = match guard(|| x.name_ref(name, h).map_err(|_| xot::Error::NotElement(h)), Err(xot::Error::NotElement(h))) {
                     Ok(r) => {
                         use xot::xmlname::NameStrInfo;
                         json!(["ok", r.prefix(), r.local_name()])
